@@ -39,15 +39,43 @@ template<typename A> using string = std::basic_string<char, std::char_traits<cha
 
 // common random declarations
 namespace random_utils {
+#ifdef DATASKETCHES_VERIF
+  // verification hook: a test harness may install a source that supplies every random choice
+  struct verif_source {
+    virtual ~verif_source() {}
+    virtual uint32_t bit() = 0;              // fair coin
+    virtual double unit_double() = 0;        // uniform in [0, 1)
+    virtual uint64_t index(uint64_t n) = 0;  // uniform in [0, n)
+  };
+  inline verif_source*& verif_src() { static thread_local verif_source* src = nullptr; return src; }
+#endif
   static std::random_device rd; // possibly unsafe in MinGW with GCC < 9.2
   static thread_local std::mt19937_64 rand(rd());
+#ifdef DATASKETCHES_VERIF
+  struct verif_next_double {
+    std::uniform_real_distribution<> dist{0.0, 1.0};
+    template<typename G> double operator()(G& g) { return verif_src() ? verif_src()->unit_double() : dist(g); }
+  };
+  static thread_local verif_next_double next_double;
+#else
   static thread_local std::uniform_real_distribution<> next_double(0.0, 1.0);
+#endif
   static thread_local std::uniform_int_distribution<uint64_t> next_uint64(0, UINT64_MAX);
 
   // thread-safe random bit
+#ifdef DATASKETCHES_VERIF
+  struct verif_random_bit {
+    std::independent_bits_engine<std::mt19937, 1, uint32_t> engine{
+      static_cast<uint32_t>(std::chrono::system_clock::now().time_since_epoch().count()
+      + std::hash<std::thread::id>{}(std::this_thread::get_id()))};
+    uint32_t operator()() { return verif_src() ? verif_src()->bit() : engine(); }
+  };
+  static thread_local verif_random_bit random_bit;
+#else
   static thread_local std::independent_bits_engine<std::mt19937, 1, uint32_t>
     random_bit(static_cast<uint32_t>(std::chrono::system_clock::now().time_since_epoch().count()
       + std::hash<std::thread::id>{}(std::this_thread::get_id())));
+#endif
 
   inline void override_seed(uint64_t s) {
     rand.seed(s);
